@@ -26,10 +26,11 @@ impl Monitor for C14 {
             ("restarts_compared_across_policies", tier.pick(1_500, 40_000)),
             ("reopens_under_a_different_policy", tier.pick(3_000, 80_000)),
             ("histories_with_rollover", tier.pick(200, 5_000)),
+            ("writes_ending_within_6_bytes_of_a_block_end", tier.pick(200, 5_000)),
         ]
     }
     fn rule(&self) -> String {
-        "case = one generated history applied in lock-step to seven logs (DoNothing, OnDelay(1h,Flush), OnDelay(1h,FlushAndFsync), OnDelay(0,FlushAndFsync), OnDelay(2ms,Flush) with 3 ms sleeps before every fifth call so that the delay elapses between calls, Always(Flush), Always(FlushAndFsync)); explicit persist calls of the history are issued on the even-numbered logs only; evaluation = one call whose outcomes (positions, eviction counts, error variants; byte counts excluded) and observable states must agree, or one restart / final reopen-under-another-policy comparison; distinct_nontrivial = distinct state digests reached after calls of histories that rolled over at least once".into()
+        "case = one generated history (profiles mixed, gc, idle, delete, dense, huge, bigname and - 2 in 10 - align, which aims entries at block and file ends using the write cursor of the traced Always(Flush) instance) applied in lock-step to seven logs (DoNothing, OnDelay(1h,Flush), OnDelay(1h,FlushAndFsync), OnDelay(0,FlushAndFsync), OnDelay(2ms,Flush) with 3 ms sleeps before every fifth call so that the delay elapses between calls, Always(Flush), Always(FlushAndFsync)); explicit persist calls of the history are issued on the even-numbered logs only; evaluation = one call whose outcomes (positions, eviction counts, error variants; byte counts excluded) and observable states must agree, or one restart / final reopen-under-another-policy comparison; distinct_nontrivial = distinct state digests reached after calls of histories that rolled over at least once".into()
     }
     fn assumptions(&self) -> Vec<String> {
         vec!["byte counts (wal_bytes_written) are not part of the comparison: the statement lists positions, eviction counts and errors".into()]
@@ -37,14 +38,21 @@ impl Monitor for C14 {
     fn run_case(&self, ctx: &Ctx, case: u64, acc: &mut Acc) {
         let parts = ctx.case_seed(case);
         let mut rng = Rng::from_parts(&parts);
-        let profile = *rng.pick(&[Profile::Mixed, Profile::Gc, Profile::Gc, Profile::Idle, Profile::Delete, Profile::Dense, Profile::Huge]);
+        let profile = *rng.pick(&[Profile::Mixed, Profile::Gc, Profile::Gc, Profile::Idle, Profile::Delete, Profile::Dense, Profile::Huge, Profile::Align, Profile::Align, Profile::BigName]);
         let nq = rng.usize(1, 4);
         let nops = rng.usize(40, 120);
         let key = parts[2] ^ parts[1].rotate_left(32);
         let mut suts: Vec<Sut> = Vec::new();
+        // the Always(Flush) instance is traced: its write cursor (identical under every policy,
+        // the WAL bytes are the same) feeds the `align` profile
+        const TRACED: usize = 5;
+        crate::shim::reset_all();
+        let traced_dir = ctx.scratch.sub(&format!("c14-{}", TRACED));
+        crate::shim::set_root(&traced_dir);
+        let mut cursor: u64 = 0;
         for (i, p) in ALL_POLICIES.iter().enumerate() {
             let dir = ctx.scratch.sub(&format!("c14-{}", i));
-            match Sut::open(&dir, *p, key, false) {
+            match Sut::open(&dir, *p, key, i == TRACED) {
                 Ok(s) => suts.push(s),
                 Err(e) => {
                     acc.inconclusive(format!("cannot open a fresh directory: {:?}", e));
@@ -61,7 +69,7 @@ impl Monitor for C14 {
         let mut ops: Vec<Op> = Vec::new();
         let mut rolled = false;
         for k in 0..nops {
-            let op = gen.next_op(None);
+            let op = gen.next_op(Some(cursor));
             ops.push(op.clone());
             let mut outs: Vec<Outcome> = Vec::new();
             for (i, s) in suts.iter_mut().enumerate() {
@@ -70,6 +78,19 @@ impl Monitor for C14 {
                     continue;
                 }
                 outs.push(s.apply(k, &op));
+                if i == TRACED {
+                    for e in crate::shim::take_events(&traced_dir) {
+                        if let crate::shim::Ev::Write { off, data, name, .. } = &e {
+                            if name.starts_with("wal-") && !data.is_empty() {
+                                cursor = off + data.len() as u64;
+                                if (cursor % 32768) > 32768 - 7 {
+                                    acc.count("writes_ending_within_6_bytes_of_a_block_end");
+                                }
+                            }
+                        }
+                    }
+                    crate::shim::reset();
+                }
             }
             if outs.iter().any(|o| o.is_io_err()) {
                 acc.inconclusive("I/O error from a live call".to_string());
@@ -79,6 +100,8 @@ impl Monitor for C14 {
             for i in 1..outs.len() {
                 if outs[i] != outs[0] && outs[i].logical() == outs[0].logical() {
                     // the statement lists positions, eviction counts and errors, not byte counts
+                    // (they do differ between instances: GC writes the position records of
+                    // the empty queues in HashMap iteration order, which shifts padding)
                     acc.count("calls_whose_wal_bytes_written_differed_across_policies_(not_a_C14_subject)");
                 }
                 if outs[i].logical() != outs[0].logical() {
